@@ -110,6 +110,12 @@ func (interp *Interpreter) SingleStepInvokeDecodedBlocks(pc ProgramCounter) (Exi
 				return ExitPanic, 0
 			}
 		} else {
+			// not a pre-decoded instruction: an invalid opcode (which is never a
+			// block start) behaves as trap and is charged like one (GP A.19)
+			if interp.Gas < 1 {
+				return ExitOOG, pc
+			}
+			interp.Gas -= 1
 			return ExitPanic, 0
 		}
 
